@@ -3,9 +3,10 @@
 Bounded exhaustive exploration of the reference printer (model.node_to_ref -> xrefs.CellRange ->
 Cell.formula) on real multi-sheet / multi-table documents built through the public API:
 
-* part `coords`   every reference kind (cell, rectangle, whole row, row span, whole column, column
-                  span) x every absolute/relative bit combination x every target coordinate pair
-                  (both end-point orders, both range_end encodings) x every host cell of a 3x3 body
+* part `coords`   every reference kind (cell, rectangle as COLON_TRACT node and as two cell
+                  references joined by a COLON_NODE, whole row, row span, whole column, column span)
+                  x every absolute/relative bit combination x every target coordinate pair (both
+                  end-point orders, both range_end encodings) x every host cell of a 3x3 body
                   x {same table, same sheet, other sheet with duplicated / unique table name};
 * part `qual`     every table-name assignment up to renaming for the sheet x table shapes of the
                   tier x 11 header-label schemes x every ordered (host table, target table) pair x
@@ -30,7 +31,7 @@ from mc.pool import pmap
 PID = "C09"
 HIST_NAMES = [[0, 2], [0]]  # 3 tables: a name duplicated across sheets and a unique one
 COORD_NAMES = [[0, 2], [0, 4]]
-KINDS = ("cell", "rect", "row", "rowspan", "col", "colspan")
+KINDS = ("cell", "rect", "colon", "row", "rowspan", "col", "colspan")
 
 
 # --------------------------------------------------------------------------------------------
@@ -313,14 +314,20 @@ def name_configs(tier):
         for names in R.canonical_name_configs(3, 2, ordered=False):
             out.append((names, ("same", "uniq"), "unordered", "qual"))
         return out
-    for s, t in ((1, 1), (1, 2), (1, 3), (1, 4), (2, 1), (2, 2), (2, 3), (3, 1), (3, 2), (4, 1)):
+    basic = ("none", "same", "uniq", "sheet")
+    for s, t in ((1, 1), (1, 2), (1, 3), (1, 4), (2, 1), (2, 2), (2, 3), (3, 1), (4, 1)):
         for names in R.canonical_name_configs(s, t, ordered=True):
             out.append((names, R.SCHEMES, "complete", "qual"))
-    for s, t, schemes in ((2, 4, ("none", "same", "uniq", "sheet")), (3, 3, ("none", "same", "uniq", "sheet")), (4, 2, ("same", "uniq"))):
+    for names in R.canonical_name_configs(3, 2, ordered=True):
+        out.append((names, basic, "complete", "qual"))
+    for names in R.canonical_name_configs(3, 2, ordered=False):
+        out.append((names, tuple(x for x in R.SCHEMES if x not in basic), "unordered", "qual"))
+    for s, t, schemes in ((2, 4, basic), (3, 3, ("same", "uniq", "sheet")), (4, 2, ("same",))):
         for names in R.canonical_name_configs(s, t, ordered=False):
             out.append((names, schemes, "unordered", "qual-small"))
-    for names in R.window_name_configs(4, 4):
-        out.append((names, ("same", "uniq"), "window", "qual-small"))
+    for s, t in ((4, 2), (4, 4)):
+        for names in R.window_name_configs(s, t):
+            out.append((names, ("same", "uniq"), "window", "qual-small"))
     return out
 
 
@@ -333,7 +340,7 @@ def build_tasks(tier, seed):
     else:
         coords, encs, schemes, hosts = (0, 1, 2, 3), (0, 1), ("none", "uniq", "same"), [(0, 0), (1, 1)]
     for scheme in schemes:
-        for host in hosts:
+        for host in hosts if scheme != "same" else hosts[:1]:
             for rc in itertools.product(body, body):
                 tasks.append(("coords", COORD_NAMES, scheme, seed, [host], [rc], None, ("full", coords, encs)))
     # qual
